@@ -15,6 +15,7 @@ import (
 	"strconv"
 	"strings"
 	"sync"
+	"sync/atomic"
 	"time"
 
 	"github.com/go-openapi/jsonpointer"
@@ -1127,17 +1128,34 @@ func exSet(xs []string, ignore ...string) []string {
 	return out
 }
 
+var exRespellCrashes int32
+
 func checkC11e2e(in *exInput) []exFinding {
+	if atomic.LoadInt32(&exRespellCrashes) > 3 {
+		return []exFinding{{Shape: "stat:respelled-crash-not-examined"}}
+	}
 	g := in.graph()
 	o := in.opts()
 	c := g.call("expand_spec", o)
 	c.Spelling = in.Spelling
-	res := exRun(c)
-	if res.Timeout || res.Panic != "" {
-		return nil
-	}
+	// in a worker process: a spelling that defeats cycle detection ends in a stack overflow, which no recover() catches
+	res := exWorkerRun(c)
 	var fs []exFinding
 	what := fmt.Sprintf("root location spelled %q instead of %q: ", in.Spelling, g.Root)
+	if res.Timeout || res.Panic != "" {
+		if atomic.AddInt32(&exRespellCrashes, 1) > 3 {
+			return []exFinding{{Shape: "stat:respelled-crash-not-examined"}} // each costs a time-out or a gigabyte of stack: three witnesses are enough
+		}
+		ref := exRun(g.call("expand_spec", o))
+		if ref.Timeout || ref.Panic != "" {
+			return nil // the canonical spelling does not come back either: not a matter of spelling (C04)
+		}
+		obs := "no result within the time limit"
+		if res.Panic != "" {
+			obs = exClip(res.Panic, 300)
+		}
+		return []exFinding{{Shape: exShape("respelled-root", g, o.Abs), What: what + "the expansion crashes or does not return, while it does with the canonical spelling", Obs: obs}}
+	}
 	for _, u := range res.Loads {
 		if !exCanonicalURL(u) {
 			fs = append(fs, exFinding{Shape: exShape("respelled-root", g, o.Abs), What: what + "the loader is given a URL that is not canonical", Obs: u})
